@@ -16,3 +16,4 @@ open Neutrino.BM
 #print axioms handle_shape
 #print axioms Neutrino.BM.C02_trans_findPreviousHeaderCheckpoint
 #print axioms Neutrino.BM.C02_trans_replace_guard
+#print axioms Neutrino.BM.C02_trans_BlockHeadersSynced
